@@ -204,6 +204,7 @@ class Ctx:
     def __init__(self):
         self.sites = {}
         self.level = "B"
+        self.interp_env = None
 
 
 def make_handler(f, ctx, symmetric=True):
@@ -216,6 +217,13 @@ def make_handler(f, ctx, symmetric=True):
             problems.append(f"positional arguments {rest} instead of {want_pos}")
         for k, v in want_kw.items():
             got = kws.get(k)
+            if got is not None and got != v and got.isidentifier() and ctx.interp_env is not None:
+                # a local that holds the parameter (or, where allowed, the literal back-end name) on this path
+                cur = ctx.interp_env.get(got)
+                if cur == v:
+                    got = v
+                elif cur == "general":
+                    got = "'general'"
             if k == "deriv_type" and allow_general and got == "'general'":
                 continue
             if got != v:
@@ -228,6 +236,7 @@ def make_handler(f, ctx, symmetric=True):
     def handler(interp, e, d):
         short = d.split(".")[-1] if d else None
         params = f.params
+        ctx.interp_env = interp.env
         has_dt = "deriv_type" in params
         if short == "evaluate_basis":
             fwd(e, short, 0, ["basis", "points"], {"transform": "transform"})
@@ -257,7 +266,12 @@ def make_handler(f, ctx, symmetric=True):
             interp.err("evaluate_density_using_evaluated_orbs with unexpected arguments", e)
         if short == "evaluate_deriv_reduced_density_matrix":
             o1, o2 = interp.expr(e.args[0]), interp.expr(e.args[1])
-            general_fallback = any(k.arg == "deriv_type" and ast.unparse(k.value) == "'general'" for k in e.keywords)
+            general_fallback = False
+            for k in e.keywords:
+                if k.arg == "deriv_type":
+                    txt = ast.unparse(k.value)
+                    general_fallback = txt == "'general'" or (txt.isidentifier() and interp.env.get(txt) == "general")
+            ctx.__dict__.setdefault("backend_calls", []).append((o1, o2, "general" if general_fallback else "fwd", e))
             want_kw = {"transform": "transform"}
             if has_dt:
                 want_kw["deriv_type"] = "deriv_type"
@@ -895,6 +909,7 @@ def run(repo, R):
         R.note_function(f.qualname)
         bad = []
         wrong_backend = []
+        all_backend_calls = []
         n = 0
         for L in itertools.product(range(7 if R.tier == "thorough" else 5), repeat=3):
             n += 1
@@ -906,39 +921,27 @@ def run(repo, R):
                 bad.append((L, ret.diff_str(want) if isinstance(ret, Terms) else str(ret)))
             for cid, rec in c2.sites.items():
                 ctx.sites[cid] = rec[:4]
-            # back-end routing is per executed call: re-run with a recording handler
+            all_backend_calls.extend(getattr(c2, "backend_calls", []))
         R.check(not bad, "LEIBNIZ", f.site, "all 125 order triples with components 0..4",
                 f"evaluate_deriv_density differs from the Leibniz expansion for {len(bad)} order triple(s), first {bad[0][0] if bad else ''}: "
                 f"{bad[0][1] if bad else ''}", where=f.where(), expected="sum_l C(L,l) G(l, L-l)", found=f"{len(bad)} mismatches",
                 detail={"triples": n})
         R.extra["leibniz_triples"] = n
-        # back-end fallback: the branch test and the literal 'general'
-        fnn = f.node
-        ifs = [st for st in ast.walk(fnn) if isinstance(st, ast.If) and "> 2" in ast.unparse(st.test)]
-        if len(ifs) != 1:
-            raise AnalysisError("BACKEND", "fallback test `> 2` not found in evaluate_deriv_density", f.where())
-        st = ifs[0]
-        t = ast.unparse(st.test)
-        D = Defs(fnn)
-        # both order vectors of the call must be tested
-        calls_body = [c for s in st.body for c in ast.walk(s) if isinstance(c, ast.Call) and dotted(c.func) == "evaluate_deriv_reduced_density_matrix"]
-        calls_else = [c for s in st.orelse for c in ast.walk(s) if isinstance(c, ast.Call) and dotted(c.func) == "evaluate_deriv_reduced_density_matrix"]
-        ok = len(calls_body) == 1 and len(calls_else) == 1
-        if ok:
-            a1, a2 = ast.unparse(calls_body[0].args[0]), ast.unparse(calls_body[0].args[1])
-            tested = {ast.unparse(n2.left) for n2 in ast.walk(st.test) if isinstance(n2, ast.Compare)}
-            both = {a1, a2} <= tested and isinstance(st.test, ast.BoolOp) and isinstance(st.test.op, ast.Or)
-            kw1 = {k.arg: ast.unparse(k.value) for k in calls_body[0].keywords}
-            kw2 = {k.arg: ast.unparse(k.value) for k in calls_else[0].keywords}
-            R.check(both, "BACKEND", f.site, t, "the fallback must be taken when EITHER order vector has a component above 2 "
-                    "(the direct back-end only implements orders up to 2)", where=f.where(st), expected=f"any({a1} > 2) or any({a2} > 2)", found=t)
-            R.check(kw1.get("deriv_type") == "'general'" and kw2.get("deriv_type") == "deriv_type", "BACKEND", f.site, "back-end per branch",
-                    "orders above 2 must go to the general back-end and the others to the requested one", where=f.where(st),
-                    expected="deriv_type='general' / deriv_type=deriv_type", found=(kw1.get("deriv_type"), kw2.get("deriv_type")))
-            R.check([ast.unparse(x) for x in calls_body[0].args] == [ast.unparse(x) for x in calls_else[0].args], "BACKEND", f.site,
-                    "same arguments on both branches", "the two branches evaluate different quantities", where=f.where(st))
-        else:
-            raise AnalysisError("BACKEND", "fallback branches not recognised", f.where(st))
+        # back-end fallback, decided on the calls the interpreter actually made for the 125 order triples: a pair of order vectors
+        # with a component above 2 must go to the general back-end (the direct one implements orders up to 2 only), every other pair
+        # to the requested back-end
+        calls = all_backend_calls
+        wrong = []
+        for o1, o2, actual, node in calls:
+            want_b = "general" if max(tuple(o1) + tuple(o2)) > 2 else "fwd"
+            if actual != want_b:
+                wrong.append((o1, o2, actual, node))
+        if not calls:
+            raise AnalysisError("BACKEND", "no call of evaluate_deriv_reduced_density_matrix was interpreted in evaluate_deriv_density", f.where())
+        R.check(not wrong, "BACKEND", f.site, f"back-end per order pair ({len(calls)} calls over the order triples)",
+                "orders above 2 (in EITHER order vector) must go to the general back-end and the others to the requested one"
+                + (f": the pair {wrong[0][0]}, {wrong[0][1]} is sent to the " + ("general" if wrong[0][2] == "general" else "requested") + " back-end" if wrong else ""),
+                where=f.where(wrong[0][3]) if wrong else f.where(), expected="deriv_type='general' iff some order > 2", found=f"{len(wrong)} of {len(calls)} calls")
     guarded("evaluate_deriv_density", deriv_density)
 
     def posdef():
